@@ -3,7 +3,7 @@ import PsyVerif.Model.Inline
 /-! Driver for C07.
 `(inline <call>)` → `(ok <stmt> <legal> <wellformed> <stable> <noclash>)` | `(refuse <reason>)`
 `(run <cstmt> (<bindings>) (<queries>))` → `((values after the program with CALLs, callee locals in `farFrame`) (values after inlineAll))`
-call   ::= `(call (localNames) (outerNames) ((name rank lo1 lo2) ...) (locals) (statics) <stmt> (<actual> ...))`
+call   ::= `(call (localNames) (outerNames) ((name rank lo1 lo2) ...) (locals) (statics) <stmt> (<actual> ...) [nReturns lastIsReturn])`
 actual ::= `(var y)` `(elem1 a e)` `(elem2 a e e)` `(expr e)` `(sec1 a st u)` `(sec2 a st1 st2 u)` `(col a st1 j u)` `(row a i st2 u)`
 cstmt  ::= `(base <stmt>)` | <call> | `(cseq c ...)` | `(cite e c c)` | `(cloop v lo hi st c)` -/
 open Proto MiniF C07
@@ -55,6 +55,10 @@ def parseCall : Sexp → Option Call
     some { localNames := ln.natList, outerNames := on.natList, params := ← ps.items.mapM parseParam,
            locals := ls.natList, statics := ss.natList, body := ← parseStmt body,
            actuals := ← as.items.mapM parseActual }
+  | .list [.atom "call", ln, on, ps, ls, ss, body, as, nret, lastret] => do
+    some { localNames := ln.natList, outerNames := on.natList, params := ← ps.items.mapM parseParam,
+           locals := ls.natList, statics := ss.natList, body := ← parseStmt body,
+           actuals := ← as.items.mapM parseActual, nReturns := ← nret.nat?, lastIsReturn := flag lastret }
   | _ => none
 
 def cseqs : List CStmt → CStmt
@@ -72,7 +76,7 @@ partial def parseC : Sexp → Option CStmt
   | _ => none
 
 def refName : Refusal → String
-  | .static => "static" | .container => "container" | .nargs => "nargs"
+  | .earlyReturn => "earlyReturn" | .static => "static" | .container => "container" | .nargs => "nargs"
   | .arrayExpr => "arrayExpr" | .rank => "rank" | .stride => "stride"
 
 def b01 (b : Bool) : String := if b then "1" else "0"
